@@ -86,6 +86,11 @@ def gen_case(rng, cid):
     if nrem == 0:
         steps.insert(0, ("remap", coord(0), coord(1), coord(2)))
 
+    return finish_case(p, rng, emit, o, e, steps)
+
+
+def finish_case(p, rng, emit, o, e, steps, crease_axis=None):
+    """builds the context over the oracle and over the plain expression and emits the comparison commands"""
     def build(hole):
         cur = hole
         for st in steps:
@@ -114,17 +119,59 @@ def gen_case(rng, cid):
     boxes = []
     lo = [rng.uniform(-2, 0) for _ in range(3)]
     hi = [l + rng.uniform(0.5, 2.5) for l in lo]
+    if crease_axis is not None:
+        lo[crease_axis] = rng.uniform(-1.5, -0.5); hi[crease_axis] = rng.uniform(0.5, 1.5)
     for _ in range(rng.randint(1, 3)):
         boxes.append((list(lo), list(hi)))
         for a in range(3):
             w = hi[a] - lo[a]
             l2 = lo[a] + rng.uniform(0, 0.5) * w
-            hi[a] = l2 + rng.uniform(0.3, 0.5) * w
+            h2 = l2 + rng.uniform(0.3, 0.5) * w
+            if a == crease_axis and not (l2 < 0.0 < h2):
+                continue                               # keep the crease inside every nested box
+            hi[a] = h2
             lo[a] = l2
     p.q["cmp"] = p.ncmd + 1
     p.emit(f"oraclecmp {ro} {re_} {len(boxes)} " + " ".join(f2h(v) for (l, h) in boxes for v in l + h))
     return p
 
+
+
+
+def gen_crease(rng, cid):
+    """ONE crease in a coordinate map above ONE crease of the wrapped expression, at the same place: the oracle
+    max(a, -2a) (or min(a, 3a) + b) under the map a' = max(a, -a); on the crease a = 0 only the branches compatible
+    with a' >= 0 are realisable, and the oracle tree must report exactly those"""
+    p = exprlib.Prog(cid)
+    for c in ("x", "y", "z"):
+        p.emit(c, "axis")
+    p.emit2 = lambda l, k="tree": p.emit(l, k)
+    emit = p.emit2
+    k = rng.randrange(3)
+    a = k
+
+    def const(v):
+        return emit(f"const {f2h(v)}", "const")
+    if rng.random() < 0.5:
+        e = emit(f"bin OP_MAX {a} {emit(f'bin OP_MUL {a} {const(-2.0)}', 'tree')}", "tree")
+    else:
+        m = emit(f"bin OP_MIN {a} {emit(f'bin OP_MUL {a} {const(3.0)}', 'tree')}", "tree")
+        e = emit(f"bin OP_ADD {m} {(k + 1) % 3}", "tree")
+    o = emit(f"oracle {e}", "tree")
+    fold = emit(f"bin {rng.choice(['OP_MAX', 'OP_MAX', 'OP_MIN'])} {a} {emit(f'un OP_NEG {a}', 'tree')}", "tree")
+    coords = [0, 1, 2]
+    coords[k] = fold
+    for j in range(3):
+        if j != k and rng.random() < 0.4:
+            coords[j] = emit(f"bin OP_ADD {j} {const(rng.choice([0.5, -1.0, 0.25]))}", "tree")
+    steps = [("remap", coords[0], coords[1], coords[2])]
+    if rng.random() < 0.3:
+        steps.append((rng.choice(["flatten", "opt"]),))
+    if rng.random() < 0.4:
+        steps.append(("bin", "OP_ADD", (k + 2) % 3, True))
+    q = finish_case(p, rng, emit, o, e, steps, crease_axis=k)
+    q.simple_crease = True
+    return q
 
 def known_case():
     """the recorded finding: a free variable in a coordinate tree above an oracle"""
@@ -155,6 +202,7 @@ def run(replay=None):
         ck.finish()
     quick = ck.tier == "quick"
     progs = [gen_case(ck.rng, f"o{k}") for k in range(300 if quick else 6000)]
+    progs += [gen_crease(ck.rng, f"c{k}") for k in range(40 if quick else 800)]
     kf = known_case()
     texts = [p.text() for p in progs] + [kf.text()]
     exe_h = os.path.join(common.BUILD, "cxx", "bin", "expr")
@@ -242,7 +290,8 @@ def run(replay=None):
             ck.violation("features:missing", "the oracle tree misses a feature (tied-branch gradient) the plain tree reports",
                          {"program": p.text(), "detail": oc[0]})
         elif int(f["fbad"]):
-            ck.violation("features:spurious", "the oracle tree reports a gradient that neither the plain tree's feature set nor any nearby point realises",
+            # (the recorded finding concerns SEVERAL coinciding nested ties; the single-crease family has its own key)
+            ck.violation("features:spurious" + (":single-crease" if getattr(p, "simple_crease", False) else ""), "the oracle tree reports a gradient that neither the plain tree's feature set nor any nearby point realises",
                          {"program": p.text(), "detail": oc[0]})
         for key, what in (("gbad", "gradient of the oracle tree differs from the plain tree's at an unambiguous point"),
                           ("ibad", "interval result of the oracle tree does not enclose its own point value (or misses a NaN)"),
